@@ -1142,6 +1142,19 @@ int main(int argc, char **argv)
     shim::install();
     std::string kind = args.get("kind", "list");
     vx::deadline().limit_s = args.getd("deadline", 1e18);
+    {
+        // entry macros: the enclosing element of a link embedded at a non-zero offset, also for the neighbours and expression arguments
+        struct WL { char pad[24]; a_list n; long tail; };
+        struct WS { char pad[40]; a_slist_node n; long tail; };
+        static WL wl[3];
+        static WS ws[2];
+        for (int i = 0; i < 3; ++i) { wl[i].n.next = &wl[(i + 1) % 3].n; wl[i].n.prev = &wl[(i + 2) % 3].n; }
+        ws[0].n.next = &ws[1].n; ws[1].n.next = nullptr;
+        a_list *pl = &wl[0].n;
+        bool ok = a_list_entry(&wl[1].n, WL, n) == &wl[1] && a_list_entry(pl + 0, WL, n) == &wl[0] && a_list_entry_next(&wl[0].n, WL, n) == &wl[1] && a_list_entry_prev(&wl[0].n, WL, n) == &wl[2] &&
+                  a_list_entry_next(pl + 0, WL, n) == &wl[1] && a_slist_entry(&ws[1].n, WS, n) == &ws[1] && a_slist_entry_next(&ws[0].n, WS, n) == &ws[1];
+        if (!ok) { vx::viol(kind + "|entry-macro", "an entry macro does not recover the enclosing element from its embedded link", "{\"job\":" + vx::jstr(args.get("job", kind)) + "}"); }
+    }
     if (kind == "list")
     {
         ListH h;
